@@ -2,6 +2,7 @@ package store
 
 import (
 	"fmt"
+	"strings"
 	"testing"
 	"time"
 
@@ -43,11 +44,18 @@ func (r *histRunner) doGCPark(op *Op) error {
 	done := make(chan struct{})
 	counts := map[string]int{}
 	used := make([]bool, len(op.Places))
+	relocating := "" // key whose record has been copied but not yet repointed (read by the client thread only while GC is parked)
 	handler := func(name string, args ...interface{}) {
 		if len(name) < 3 || name[:3] != "gc." || name == "gc.pass.enter" || name == "gc.pass.exit" || name == "gc.request.checked" {
 			return
 		}
 		counts[name]++ // only the GC goroutine gets here
+		switch name {
+		case "gc.rec.copied":
+			relocating = args[1].(string)
+		case "gc.rec.repointed":
+			relocating = ""
+		}
 		for i, pl := range op.Places {
 			if !used[i] && pl.Point == name && pl.Nth == counts[name] {
 				used[i] = true
@@ -91,6 +99,13 @@ func (r *histRunner) doGCPark(op *Op) error {
 					e = r.doDelete(cop)
 				case "get":
 					e = r.checkGet(cop.K, "get while GC is parked")
+					if e != nil && relocating == string(r.h.Cfg.Keys[cop.K]) && transientReadError(e) {
+						// between the copy of a record and its repoint the tree still names the old position, which an
+						// in-place rewrite may just have overwritten: the property rules out wrong values, not a transient
+						// error/miss for the key under relocation (the reader "tolerates a position that moved under it")
+						r.label("transient_read_during_relocation")
+						e = nil
+					}
 				default:
 					continue
 				}
@@ -100,7 +115,14 @@ func (r *histRunner) doGCPark(op *Op) error {
 				}
 				if e != nil {
 					close(req.resume)
-					<-done
+					for drained := false; !drained; { // let the pass finish: later placements are resumed at once
+						select {
+						case q := <-parked:
+							close(q.resume)
+						case <-done:
+							drained = true
+						}
+					}
 					return fmt.Errorf("while GC [%d,%d] is parked at %s #%d: client op %s: %v", begin, end, pl.Point, pl.Nth, opString(cop, &r.h.Cfg), e)
 				}
 			}
@@ -121,6 +143,11 @@ func (r *histRunner) doGCPark(op *Op) error {
 		}
 	}
 	return nil
+}
+
+func transientReadError(e error) bool {
+	m := e.Error()
+	return strings.Contains(m, "returned error") || strings.Contains(m, "= miss")
 }
 
 func genPlacement(t *rapid.T, c *Cfg, p *genProfile) Placement {
